@@ -217,6 +217,7 @@ func verifC04Update() {
 	releasedAtNotify := true
 	a.connectionStateNotifier.connectionStateFunc = func(s ConnectionState) {
 		w.states = append(w.states, s)
+		verifReach("handler-ran")
 		if s == ConnectionStateFailed {
 			releasedAtNotify = len(a.checklist) == 0 && len(a.pairsByID) == 0 && len(a.pendingBindingRequests) == 0 &&
 				a.getSelectedPair() == nil && len(a.localCandidates) == 0 && len(a.remoteCandidates) == 0
